@@ -36,6 +36,14 @@ theorem capN_reduceGroup : ∀ (fuel : Nat) (u : Node), capN sl u = true → cap
 theorem capQ_free {t : Nat} (h : t ≠ 13 ∧ t ≠ 33 ∧ t ≠ 28 ∧ t ≠ 29) (m n : Int) : capQ sl t m n = true :=
   capQ_other sl h.1 h.2.1 h.2.2.1 h.2.2.2 m n
 
+theorem valid_bad (t ct : Nat) (ht : t = 26 ∨ t = 27) (hct : ct = 13 ∨ ct = 33 ∨ ct = 28 ∨ ct = 29) :
+    (ct == t ||
+      (if t == ntLoop then
+         ct == ntOneloop || ct == ntOneloopatomic || ct == ntNotoneloop ||
+         ct == ntNotoneloopatomic || ct == ntSetloop || ct == ntSetloopatomic
+       else ct == ntOnelazy || ct == ntNotonelazy || ct == ntSetlazy)) = false := by
+  rcases ht with ht | ht <;> subst ht <;> rcases hct with h1 | h1 | h1 | h1 <;> subst h1 <;> rfl
+
 theorem capN_repWalk (t : Nat) (ht : t = 26 ∨ t = 27) (mn mx : Int) :
     ∀ (f : Nat) (u : Node), capN sl u = true → capN sl (repWalk t mn mx f u) = true
   | 0, u, h => by simpa [repWalk] using h
@@ -45,21 +53,17 @@ theorem capN_repWalk (t : Nat) (ht : t = 26 ∨ t = 27) (mn mx : Int) :
     · exact h
     · rename_i child rest hk
       have hc := capN_head sl h hk
-      simp only []
-      split
-      · exact h
-      · rename_i hvalid
-        split
-        · exact h
-        · apply capN_repWalk t ht mn mx f
+      by_cases hct : child.t = 13 ∨ child.t = 33 ∨ child.t = 28 ∨ child.t = 29
+      · have hv := valid_bad t child.t ht hct
+        simp only [hv]
+        exact h
+      · have hmb : capN sl (repWalk t mn mx f (mulBounds child mn mx)) = true := by
+          apply capN_repWalk t ht mn mx f
           unfold mulBounds
-          apply capN_withMN sl hc
-          apply capQ_free
-          simp only [Bool.not_eq_true, Bool.not_eq_false', Bool.or_eq_true, beq_iff_eq, ntLoop, ntOneloop, ntOneloopatomic,
-            ntNotoneloop, ntNotoneloopatomic, ntSetloop, ntSetloopatomic, ntOnelazy, ntNotonelazy, ntSetlazy] at hvalid
-          rcases hvalid with hv | hv
-          · omega
-          · split at hv <;> omega
+          exact capN_withMN sl hc (capQ_free sl (by omega) _ _)
+        simp only []
+        repeat' split
+        all_goals first | exact h | exact hmb
 
 theorem capN_reduceRep (fuel : Nat) {x : Node} (ht : x.t = 26 ∨ x.t = 27) (hx : capN sl x = true) :
     capN sl (reduceRep fuel x) = true := by
@@ -76,13 +80,14 @@ theorem capN_reduceRep (fuel : Nat) {x : Node} (ht : x.t = 26 ∨ x.t = 27) (hx 
         split
         · rename_i hct
           simp only [Bool.or_eq_true, beq_iff_eq, ntOne, ntNotone, ntSet] at hct
+          generalize (u.t == ntLazyloop) = b
           cases child with
           | mk t o ch str set m n kids =>
             simp only [Node.t] at hct
-            simp only [Node.withT, Node.withMN]
+            simp only [Node.withT, Node.withMN, Node.t]
             apply capN_mk_of sl (capN_o sl hc) _ (capN_kids sl hc)
             apply capQ_free
-            split <;> omega
+            cases b <;> simp only [if_true, if_false, Bool.false_eq_true] <;> omega
         · exact hu
       · exact hu
   unfold reduceRep
@@ -161,19 +166,14 @@ theorem capN_atomicWrap {o : Nat} (ho : o < tagBase) {inner : Node} (h : capN sl
     capN sl (.mk ntAtomic o 0 [] none 0 0 [inner]) = true :=
   capN_mk_of sl ho rfl (capNs_single sl h)
 
-/-- **`reduce()` and `eliminateEndingBacktracking` never invent a group number** -/
-theorem reduce_elim_caps (h0 : sl 0 = true) (orc : Orc) (on : Bool) : ∀ (fuel : Nat),
-    (∀ (pa : Bool) (x : Node), okN x = true → capN sl x = true → capN sl (reduce orc on fuel pa x) = true) ∧
-    (∀ (pa : Bool) (x : Node), okN x = true → capN sl x = true → capN sl (elim orc on fuel pa x) = true)
-  | 0 => ⟨fun _ _ _ h => by simpa [reduce] using h, fun _ _ _ h => by simpa [elim] using h⟩
-  | fuel + 1 => by
-    have ih := reduce_elim_caps h0 orc on fuel
+set_option maxHeartbeats 1600000 in
+theorem reduce_step_caps (h0 : sl 0 = true) (orc : Orc) (on : Bool) (fuel : Nat)
+    (ihr : ∀ (pa : Bool) (x : Node), okN x = true → capN sl x = true → capN sl (reduce orc on fuel pa x) = true)
+    (ihe : ∀ (pa : Bool) (x : Node), okN x = true → capN sl x = true → capN sl (elim orc on fuel pa x) = true) :
+    ∀ (pa : Bool) (x : Node), okN x = true → capN sl x = true → capN sl (reduce orc on (fuel + 1) pa x) = true := by
     have iho := reduce_elim_ok orc on fuel
-    have ihr := ih.1
-    have ihe := ih.2
     have hred : RedCaps sl (fun pa' r => toR (reduce orc on fuel pa' (fromR r))) := fun pa' r hr =>
       toR_caps sl h0 _ (iho.1 _ _ (fromR_ok r)) (ihr _ _ (fromR_ok r) (fromR_caps sl r hr))
-    refine ⟨?_, ?_⟩
     · intro pa x0 ho0 hc0
       have hx : okN (stripCi x0) = true := okN_stripCi ho0
       have hcx : capN sl (stripCi x0) = true := capN_stripCi sl hc0
@@ -268,6 +268,12 @@ theorem reduce_elim_caps (h0 : sl 0 = true) (orc : Orc) (on : Bool) : ∀ (fuel 
           rfl
         · exact hcx
       · exact hcx
+
+theorem elim_step_caps (h0 : sl 0 = true) (orc : Orc) (on : Bool) (fuel : Nat)
+    (ihr : ∀ (pa : Bool) (x : Node), okN x = true → capN sl x = true → capN sl (reduce orc on fuel pa x) = true)
+    (ihe : ∀ (pa : Bool) (x : Node), okN x = true → capN sl x = true → capN sl (elim orc on fuel pa x) = true) :
+    ∀ (pa : Bool) (x : Node), okN x = true → capN sl x = true → capN sl (elim orc on (fuel + 1) pa x) = true := by
+    have iho := reduce_elim_ok orc on fuel
     · intro pa x hx hcx
       rw [elim]
       split
@@ -323,6 +329,15 @@ theorem reduce_elim_caps (h0 : sl 0 = true) (orc : Orc) (on : Bool) : ∀ (fuel 
             · exact h1
         · exact h1
       · exact hcx
+
+/-- **`reduce()` and `eliminateEndingBacktracking` never invent a group number** -/
+theorem reduce_elim_caps (h0 : sl 0 = true) (orc : Orc) (on : Bool) : ∀ (fuel : Nat),
+    (∀ (pa : Bool) (x : Node), okN x = true → capN sl x = true → capN sl (reduce orc on fuel pa x) = true) ∧
+    (∀ (pa : Bool) (x : Node), okN x = true → capN sl x = true → capN sl (elim orc on fuel pa x) = true)
+  | 0 => ⟨fun _ _ _ h => by simpa [reduce] using h, fun _ _ _ h => by simpa [elim] using h⟩
+  | fuel + 1 =>
+    have ih := reduce_elim_caps h0 orc on fuel
+    ⟨reduce_step_caps sl h0 orc on fuel ih.1 ih.2, elim_step_caps sl h0 orc on fuel ih.1 ih.2⟩
 
 theorem capN_processNode (h0 : sl 0 = true) (orc : Orc) (cf : Nat) (sub : Node) (ctx : List Frame) :
     ∀ (f : Nat) (x : Node), okN x = true → capN sl x = true → capN sl (processNode orc cf sub ctx f x) = true
@@ -531,6 +546,19 @@ open Writer in
 theorem capsOkList_cons (cfg : Cfg) (cs : Nat) (g : GoNode) (gs : List GoNode) :
     capsOkList cfg cs (g :: gs) = (capsOk cfg cs g && capsOkList cfg cs gs) := by rw [capsOkList]
 
+theorem capQ_13 {sl : Int → Bool} {m n : Int} (h : capQ sl 13 m n = true) : sl m = true := by
+  simp only [capQ, show ((13 : Nat) == 13 || (13 : Nat) == 33) = true from rfl, if_true, Bool.and_eq_true] at h
+  exact h.2
+theorem capQ_33 {sl : Int → Bool} {m n : Int} (h : capQ sl 33 m n = true) : sl m = true := by
+  simp only [capQ, show ((33 : Nat) == 13 || (33 : Nat) == 33) = true from rfl, if_true, Bool.and_eq_true] at h
+  exact h.2
+theorem capQ_28 {sl : Int → Bool} {m n : Int} (h : capQ sl 28 m n = true) :
+    (if n == -1 then sl m else (m == -1 || sl m) && sl n) = true := by
+  simp only [capQ, show ((28 : Nat) == 13 || (28 : Nat) == 33) = false from rfl, show ((28 : Nat) == 28) = true from rfl,
+    if_true, Bool.false_eq_true, if_false, Bool.and_eq_true] at h
+  exact h.2
+
+set_option maxHeartbeats 1600000 in
 open Writer in
 theorem goOf_capsOk (cfg : Cfg) (cs : Nat) (t o ch : Nat) (str : List Nat) (set : Option Class.Class) (m n : Int)
     (gs : List GoNode) (hq : capQ (slotOk cfg cs) t m n = true) (hg : capsOkList cfg cs gs = true) :
@@ -543,45 +571,65 @@ theorem goOf_capsOk (cfg : Cfg) (cs : Nat) (t o ch : Nat) (str : List Nat) (set 
   · rw [capsOk]; exact hg
   split
   · -- no children
-    repeat' split
-    all_goals first
-      | (rename_i h13; rw [capsOk]
-         have : t = 13 := by simpa using h13
-         subst this
-         simp only [capQ, show ((13 : Nat) == 13 || (13 : Nat) == 33) = true from rfl, if_true, Bool.and_eq_true] at hq
-         exact hq.2)
-      | rw [capsOk]
+    split
+    · rw [capsOk]
+    split
+    · rw [capsOk]
+    split
+    · rw [capsOk]
+    split
+    · rw [capsOk]
+    split
+    · rw [capsOk]
+    split
+    · rename_i h13
+      have : t = 13 := by simpa using h13
+      subst this
+      rw [capsOk]
+      exact capQ_13 hq
+    split
+    · rw [capsOk]
+    split
+    · rw [capsOk]
+    · rw [capsOk]
   · rename_i k
     have hk : capsOk cfg cs k = true := by simpa [capsOkList_cons, capsOkList] using hg
-    repeat' split
-    all_goals first
-      | (rw [capsOk, hk, Bool.and_true]
-         rename_i h28
-         have : t = 28 := by simpa using h28
-         subst this
-         simp only [capQ, show ((28 : Nat) == 13 || (28 : Nat) == 33) = false from rfl, show ((28 : Nat) == 28) = true from rfl,
-           if_true, Bool.false_eq_true, if_false, Bool.and_eq_true] at hq
-         exact hq.2)
-      | (rw [capsOk, hk, Bool.and_true]
-         rename_i h33
-         have : t = 33 := by simpa using h33
-         subst this
-         simp only [capQ, show ((33 : Nat) == 13 || (33 : Nat) == 33) = true from rfl, if_true, Bool.and_eq_true] at hq
-         exact hq.2)
-      | (rw [capsOk]; exact hk)
-      | rw [capsOk]
+    split
+    · rw [capsOk]; exact hk
+    split
+    · rw [capsOk]; exact hk
+    split
+    · rename_i h28
+      have : t = 28 := by simpa using h28
+      subst this
+      rw [capsOk, hk, Bool.and_true]
+      exact capQ_28 hq
+    split
+    · rw [capsOk]; exact hk
+    split
+    · rw [capsOk]; exact hk
+    split
+    · rw [capsOk]; exact hk
+    split
+    · rw [capsOk]; exact hk
+    split
+    · rename_i h33
+      have : t = 33 := by simpa using h33
+      subst this
+      rw [capsOk, hk, Bool.and_true]
+      exact capQ_33 hq
+    · rw [capsOk]
   · rename_i k k2
     have hk : capsOk cfg cs k = true ∧ capsOk cfg cs k2 = true := by simpa [capsOkList_cons, capsOkList] using hg
-    repeat' split
-    all_goals first
-      | (rw [capsOk, hk.1, hk.2, Bool.and_true, Bool.and_true]
-         rename_i h33
-         have : t = 33 := by simpa using h33
-         subst this
-         simp only [capQ, show ((33 : Nat) == 13 || (33 : Nat) == 33) = true from rfl, if_true, Bool.and_eq_true] at hq
-         exact hq.2)
-      | (rw [capsOk, hk.1, hk.2]; rfl)
-      | rw [capsOk]
+    split
+    · rename_i h33
+      have : t = 33 := by simpa using h33
+      subst this
+      rw [capsOk, hk.1, hk.2, Bool.and_true, Bool.and_true]
+      exact capQ_33 hq
+    split
+    · rw [capsOk, hk.1, hk.2]; rfl
+    · rw [capsOk]
   · rename_i k k2 k3
     have hk : capsOk cfg cs k = true ∧ capsOk cfg cs k2 = true ∧ capsOk cfg cs k3 = true := by
       simpa [capsOkList_cons, capsOkList] using hg
